@@ -495,11 +495,13 @@ func (r *run) episode(idx int, s scenario) {
 			}
 		}
 
-		// epilogue: release whoever is parked (with events pending it must return), drain every
-		// handler with a context that is already cancelled (a call returns the context error
-		// only after an empty pull), then cancel every context and release until all calls returned
+		// epilogue: release whoever is parked (with events pending it must return), then drain every
+		// handler with a LIVE context: calls are made until one stays blocked in the select. A blocked
+		// call is the evidence that the real log is empty (a context error would not be: an
+		// implementation may check the context before it looks at the log), so the quiet line that
+		// follows judges P_C18_Replay for every handler. Finally every context is cancelled and
+		// whoever is still parked is released until all calls have returned.
 		r.releaseAll()
-		r.cancelCtx("dctx")
 		var hs []string
 		for h := range r.handlers {
 			hs = append(hs, h)
@@ -507,13 +509,14 @@ func (r *run) episode(idx int, s scenario) {
 		sort.Strings(hs)
 		for _, h := range hs {
 			for k := 0; k < 2*np+3; k++ {
-				r.startCall("d"+h, h, "dctx", "free")
+				r.startCall("d"+h, h, "dctx-"+h, "free")
 				synctest.Wait()
 				r.mu.Lock()
 				_, still := r.cur["d"+h]
+				last := r.lastK["d"+h]
 				r.mu.Unlock()
-				if still || r.lastWasCtx("d"+h) {
-					break // "still" cannot happen with a cancelled context; the quiet line will show it
+				if still || (last != "J" && last != "L") {
+					break
 				}
 			}
 		}
@@ -526,7 +529,7 @@ func (r *run) episode(idx int, s scenario) {
 		r.mu.Unlock()
 		sort.Strings(cs)
 		for _, c := range cs {
-			if c != "dctx" && r.ctxs[c].Err() == nil {
+			if r.ctxs[c].Err() == nil {
 				r.cancelCtx(c)
 			}
 		}
@@ -564,13 +567,6 @@ func (r *run) releaseAll() int {
 		r.quiet()
 	}
 	return len(parkedC)
-}
-
-// lastWasCtx reports whether the most recent call of the drain consumer returned the context error.
-func (r *run) lastWasCtx(c string) bool {
-	r.mu.Lock()
-	defer r.mu.Unlock()
-	return r.lastK[c] == "ctx"
 }
 
 // TestC18Replay replays the scenarios of VERIF_IN. Consecutive scenarios with the same
